@@ -16,6 +16,7 @@ def l2_part(run, exe_unused, results, env):
     ncfgs = [("c11_nw", dict(tree=N.T((1, 0, N.NONE)), NN=1, MaxNow=1, progs=[[N.WAIT(1, 1), N.WAIT(1)], [N.NOTIFY(1)]])),
              ("c11_ndl", dict(tree=N.T((1, 0, 1)), NN=1, MaxNow=1, progs=[[N.WAIT(1)], [N.WAIT(1, 1), N.POLL(1)]])),
              ("c11_past", dict(tree=N.T((1, 0, N.NONE)), NN=1, MaxNow=0, progs=[[N.WAIT(1, -1), N.WAIT(1)], [N.NOTIFY(1)]]))]
+    ncfgs += [(n, c) for n, (props, t, c) in N.CONF.items() if "C11" in props and (t == "q" or run.tier == "thorough")]
     ncf = [(n, dict(N.note_conf(c), _c=c)) for n, c in ncfgs]
     l2lib.run_family(run, exe2, "Note", "C11", ncf, lambda conf: N.consts_of(conf["_c"]), {"NoStuck"}, {"O-ret", "O-mem", "O-prog", "O-lin"})
     exer = build("h_l2r")
@@ -25,6 +26,6 @@ def l2_part(run, exe_unused, results, env):
 
 def main(tier, replay=None):
     return mu_check("C11", tier, replay, post=l2_part,
-                    extra_rule="; objects: condition variables (with the caller's mutex, L1), notes and counters (L2, one object per call: the bookkeeping is on the caller's stack); "
-                               "calls with 5 objects of mixed kinds (heap bookkeeping) are NOT covered by a specification yet (stated in DESIGN.md)",
-                    extra_assume=["one object per nsync_wait_n call in the specifications (on-stack records); the heap path (count > 4) and mixed-kind calls are not modelled"])
+                    extra_rule="; objects: condition variables (with the caller's mutex, L1), counters (L2, one object per call) and notes (L2, 1..5 notes per call: "
+                               "on-stack records for up to 4 objects and the heap bookkeeping path for 5); calls mixing kinds in one call are not modelled",
+                    extra_assume=["a single nsync_wait_n call waits on objects of one kind in the specifications (cv | counter | 1..5 notes); kinds are not mixed within one call"])
